@@ -9,8 +9,8 @@ def thms(ns, names):
 
 REG = {
     "C01": {
-        "modules": ["VProofs.Props.C01"],
-        "theorems": thms("C01", ["C01_detect", "C01_pandas", "C01_pandas_model"]),
+        "modules": ["VProofs.Props.C01", "VProofs.Props.Pandas"],
+        "theorems": thms("C01", ["C01_detect", "C01_pandas", "C01_pandas_model"]) + ["V.Pd.built_typeset", "V.PandasProps.C01_pandas_built"],
         "runners": ["pandas", "engine", "numpy", "list"],
         "relevant": ["contains", "detect"],
     },
@@ -34,8 +34,8 @@ REG = {
         "runners": ["pandas", "numpy", "list"],
     },
     "C15": {
-        "modules": ["VProofs.Props.C15"],
-        "theorems": thms("C15", ["C15_detect", "C15_infer"]),
+        "modules": ["VProofs.Props.C15", "VProofs.Props.Pandas"],
+        "theorems": thms("C15", ["C15_detect", "C15_infer"]) + ["V.Pd.pandas_WF", "V.Pd.outputs_good", "V.Pd.goodB_sound", "V.PandasProps.succ_restrict_perm", "V.PandasProps.C15_pandas"],
         "runners": ["pandas", "list", "algebra"],
         "relevant": ["contains", "guard", "infer-path", "infer-outcome", "detect-path", "relation-missing"],
     },
